@@ -155,12 +155,19 @@ def observe(ctx, fi, insp, size_hook=None):
     return (m, c, vs, sc)
 
 
-def feed(ctx, fi, cls, chunks, queries, regions_log=None):
-    """present chunks; returns ('ok', inspector) or ('exc', name, insp)"""
+def feed(ctx, fi, cls, chunks, queries, regions_log=None, bound=None):
+    """present chunks; returns ('ok', inspector) or ('exc', name, insp).
+    With `bound`, the retained-bytes total is an obligation after every
+    chunk (C05: the bound holds at every point of the stream)."""
     insp = cls()
     try:
         for ch in chunks:
             insp.eat_chunk(ch)
+            if bound is not None:
+                tot = 0
+                for v in insp.context_info.values():
+                    tot = tot + v
+                ctx.check('C05-bound-after-every-chunk', tot <= bound)
             if queries:
                 # queries made in between must not disturb anything
                 insp.format_match
@@ -235,7 +242,7 @@ def scen_simple(ctx, M):
     # chunking paths of run A
     eb, B = feed(ctx, fi, cls, [S.whole()], False)
     ob = observe(ctx, fi, B) if eb is None else None
-    ea, A = feed(ctx, fi, cls, chunks_of(S, cs), True)
+    ea, A = feed(ctx, fi, cls, chunks_of(S, cs), True, bound=ref.bound)
     ctx.check('C01-rel-exception', ea == eb)
     ctx.check('C03-total-only-IFE', ea in (None, 'ImageFormatError'))
     if ea is not None or eb is not None:
@@ -393,9 +400,9 @@ def scen_vhdx(ctx, M):
         family(Mv)
     cs = cuts(ctx, p['cuts'], N)
     cls = fi.VHDXInspector
-    eb, B = feed(ctx, fi, cls, [S.whole()], False)
+    eb, B = feed(ctx, fi, cls, [S.whole()], False, bound=512 * KiB)
     ob = observe(ctx, fi, B) if eb is None else None
-    ea, A = feed(ctx, fi, cls, chunks_of(S, cs), True)
+    ea, A = feed(ctx, fi, cls, chunks_of(S, cs), True, bound=512 * KiB)
     ctx.check('C01-rel-exception', ea == eb)
     ctx.check('C03-total-only-IFE', ea in (None, 'ImageFormatError') and
               eb in (None, 'ImageFormatError'))
@@ -1161,9 +1168,9 @@ def scen_vmdk(ctx, M):
         ctx.assume(N >= 512 + 512 * D + 1536)
     cs = cuts(ctx, p['cuts'], N)
     cls = fi.VMDKInspector
-    eb, B = feed(ctx, fi, cls, [S.whole()], False)
+    eb, B = feed(ctx, fi, cls, [S.whole()], False, bound=VMDK_BOUND)
     ob = observe(ctx, fi, B) if eb is None else None
-    ea, A = feed(ctx, fi, cls, chunks_of(S, cs), True)
+    ea, A = feed(ctx, fi, cls, chunks_of(S, cs), True, bound=VMDK_BOUND)
     ctx.check('C01-rel-exception', ea == eb)
     ctx.check('C03-total-only-IFE', ea in (None, 'ImageFormatError') and
               eb in (None, 'ImageFormatError'))
